@@ -102,6 +102,7 @@ let print_out (o : out) : string =
   | OQ (a, b) -> "Q " ^ hex_of_z a ^ " " ^ hex_of_z b
   | OS s -> "S " ^ hex_of_bytes s
   | OF b -> "F " ^ hex_of_z b
+  | OL l -> "L " ^ (if l = [] then "-" else String.concat "," (List.map hex_of_z l))
   | OUB -> "UB"
   | OFuel -> "FUEL"
   | OX -> "X"
@@ -121,6 +122,8 @@ let parse_out (s : string) : out =
   | [ "Q"; a; b ] -> OQ (z_of_hex a, z_of_hex b)
   | [ "S"; h ] -> OS (bytes_of_hex h)
   | [ "F"; b ] -> OF (z_of_hex b)
+  | [ "L"; "-" ] -> OL []
+  | [ "L"; l ] -> OL (List.map z_of_hex (String.split_on_char ',' l))
   | _ -> OX
 
 let mode_of_int i =
@@ -196,6 +199,63 @@ let run (pf : profile) (line : string) (impl : out) : out * bool * string =
       | "fromint" -> let i = z_of_hex (a 0) in (run_fromint i, acc_fromint i impl, "-")
       | "fromu128" -> let u = z_of_hex (a 0) in (run_fromu128 u, acc_fromu128 u impl, "-")
       | _ -> failwith "cv")
+  | "str" -> (
+      match op with
+      | "parse" | "macro" | "core" ->
+          let bytes = bytes_of_hex (a 0) in
+          let sop = (match op with "parse" -> Sparse | "macro" -> Smacro | _ -> Score) in
+          let kn = int_of_z (known_str bytes) in
+          (canon_perr (run_str pf sop bytes), acc_str sop bytes impl,
+           if kn = 2 then "K2" else if kn = 4 then "K4" else "-")
+      | "tostring" -> let d = mkd (a 0) (a 1) in (run_tostring pf d, acc_tostring d impl, "-")
+      | "roundtrip" -> let d = mkd (a 0) (a 1) in (run_roundtrip pf d, acc_roundtrip d impl, "-")
+      | _ -> failwith "str")
+  | "fmt" ->
+      (* fmt.<id>[.i] m w p c nfd fillhex align plus alt zero   (w, p: decimal or '-') *)
+      let w = if a 0 = "-" then z_of_int (-1) else zd (a 0) in
+      let pr = if a 1 = "-" then z_of_int (-1) else zd (a 1) in
+      let fill = bytes_of_hex (a 4) in
+      let al = zd (a 5) in
+      let fl k = a k = "1" in
+      if ty = "i" then
+        let c = z_of_hex (a 2) in
+        (run_fmt_int fill al (fl 6) (fl 7) (fl 8) w c, acc_fmt_int fill al (fl 6) (fl 7) (fl 8) w c impl, "-")
+      else
+        let d = mkd (a 2) (a 3) in
+        (run_fmt pf m fill al (fl 6) (fl 7) (fl 8) w pr d, acc_fmt m fill al (fl 6) (fl 7) (fl 8) w pr d impl, "-")
+  | "fl" -> (
+      match op with
+      | "f64" | "f32" -> let d = mkd (a 0) (a 1) in
+          (run_tofloat pf (op = "f64") d, acc_tofloat (op = "f64") d impl, "-")
+      | "fromf64" | "fromf32" -> let b = z_of_hex (a 0) in
+          (run_fromfloat pf (op = "fromf64") b, acc_fromfloat (op = "fromf64") b impl, "-")
+      | "ratio" -> let d = mkd (a 0) (a 1) in (run_ratio pf d, acc_ratio d impl, "-")
+      | _ -> failwith "fl")
+  | "thr" ->
+      (* thr.forced|free m ev ev ...   S<t>=<m> G<t> R<t>:c:p:n D<t>:c1:p1:c2:p2:n M<t>:c1:p1:c2:p2 *)
+      let evs = ref [] in
+      for k = 0 to Array.length t - 3 do
+        let e = a k in
+        let kind = e.[0] in
+        let body = String.sub e 1 (String.length e - 1) in
+        let f = Array.of_list (String.split_on_char ':' body) in
+        let ev =
+          match kind with
+          | 'S' -> (match String.split_on_char '=' body with
+                    | [ tt; mm ] -> TSet (zd tt, mode_of_int (int_of_string mm)) | _ -> failwith "S")
+          | 'G' -> TGet (zd body)
+          | 'R' -> TRound (zd f.(0), mkd f.(1) f.(2), zd f.(3))
+          | 'D' -> TDivR (zd f.(0), mkd f.(1) f.(2), mkd f.(3) f.(4), zd f.(5))
+          | 'M' -> TMul (zd f.(0), mkd f.(1) f.(2), mkd f.(3) f.(4))
+          | 'V' -> TDiv (zd f.(0), mkd f.(1) f.(2), mkd f.(3) f.(4))
+          | 'U' -> TMulR (zd f.(0), mkd f.(1) f.(2), mkd f.(3) f.(4), zd f.(5))
+          | 'F' -> TFmt (zd f.(0), mkd f.(1) f.(2), zd f.(3))
+          | _ -> failwith "event"
+        in
+        evs := ev :: !evs
+      done;
+      let h = List.rev !evs in
+      (run_thr pf h, acc_thr pf h impl, "-")
   | "w" ->
       let k = kop_of_string op in
       let g i = if has i then z_of_hex (a i) else Z0 in
@@ -203,7 +263,14 @@ let run (pf : profile) (line : string) (impl : out) : out * bool * string =
   | _ -> failwith "family"
 
 let () =
-  let pf = if Array.length Sys.argv > 1 && Sys.argv.(1) = "release" then release else dev in
+  let pf =
+    if Array.length Sys.argv > 1 then
+      (match Sys.argv.(1) with
+       | "release" -> release
+       | "ovf-nodbg" -> { ovf_checks = true; dbg_asserts = false }
+       | "noovf-dbg" -> { ovf_checks = false; dbg_asserts = true }
+       | _ -> dev)
+    else dev in
   try
     while true do
       let line = input_line stdin in
@@ -216,7 +283,9 @@ let () =
         in
         match (try Ok (run pf opl (parse_out impl_s)) with e -> Error (Printexc.to_string e)) with
         | Ok (mo, acc, known) ->
-            let corr = out_eqb mo (parse_out impl_s) in
+            let io = parse_out impl_s in
+            let io = if String.length opl > 9 && (String.sub opl 0 9 = "str.parse" || String.sub opl 0 9 = "str.macro") then canon_perr io else io in
+            let corr = out_eqb mo io in
             Printf.printf "%s\t%d\t%d\t%s\n" (print_out mo) (if corr then 1 else 0) (if acc then 1 else 0) known
         | Error e -> Printf.printf "X! %s\t0\t0\t-\n" e
       end
